@@ -53,6 +53,12 @@ struct Scenario {
     pre: Option<Vec<u8>>,
     force: bool,
     report: bool,
+    /// the grammar is replaced by this text after the crash, before the normal build
+    after: Option<Vec<u8>>,
+    /// a stale `<name>.rs.tmp` planted before the (interrupted) build
+    pre_tmp: Option<Vec<u8>>,
+    /// few crash points: the named boundaries and a sample of byte offsets
+    sparse: bool,
 }
 
 const NAMED: &[&str] = &[
@@ -153,6 +159,9 @@ fn setup(dir: &Path, sc: &Scenario) {
     if let Some(p) = &sc.pre {
         fs::write(rspath(dir, 0), p).unwrap();
     }
+    if let Some(p) = &sc.pre_tmp {
+        fs::write(tmppath(dir, 0), p).unwrap();
+    }
 }
 
 fn scenarios(oracle: &mut Oracle, exhaustive: bool) -> Vec<Scenario> {
@@ -163,27 +172,51 @@ fn scenarios(oracle: &mut Oracle, exhaustive: bool) -> Vec<Scenario> {
     let cur_small = oracle.get(&small).full;
     let conflict = b"grammar;\npub E: () = { E \"+\" E => (), \"n\" => () };\n".to_vec();
     let mut v = vec![
-        Scenario { name: "small-none".into(), text: small.clone(), pre: None, force: false, report: false },
-        Scenario { name: "small-stale".into(), text: small.clone(), pre: stale.clone(), force: false, report: false },
-        Scenario { name: "small-none-report".into(), text: small.clone(), pre: None, force: false, report: true },
-        Scenario { name: "small-current-forced".into(), text: small.clone(), pre: cur_small, force: true, report: false },
-        Scenario { name: "medium-none".into(), text: medium.clone(), pre: None, force: false, report: false },
-        Scenario { name: "conflict-stale-report".into(), text: conflict, pre: stale.clone(), force: false, report: true },
+        Scenario { name: "small-none".into(), text: small.clone(), pre: None, force: false, report: false, after: None, pre_tmp: None, sparse: false },
+        Scenario { name: "small-stale".into(), text: small.clone(), pre: stale.clone(), force: false, report: false, after: None, pre_tmp: None, sparse: false },
+        Scenario { name: "small-none-report".into(), text: small.clone(), pre: None, force: false, report: true, after: None, pre_tmp: None, sparse: false },
+        Scenario { name: "small-current-forced".into(), text: small.clone(), pre: cur_small, force: true, report: false, after: None, pre_tmp: None, sparse: false },
+        Scenario { name: "medium-none".into(), text: medium.clone(), pre: None, force: false, report: false, after: None, pre_tmp: None, sparse: false },
+        Scenario { name: "conflict-stale-report".into(), text: conflict, pre: stale.clone(), force: false, report: true, after: None, pre_tmp: None, sparse: false },
     ];
+    // the grammar changes between the interrupted build and the next one (shorter / longer output), and a
+    // stale temporary file is present before a build: whatever an earlier build left in `<name>.rs.tmp`
+    // must not show up in the output
+    let med_full = oracle.get(&medium).full;
+    v.push(Scenario { name: "medium-then-small".into(), text: medium.clone(), pre: None, force: false, report: false,
+                      after: Some(small.clone()), pre_tmp: None, sparse: true });
+    v.push(Scenario { name: "small-then-medium".into(), text: small.clone(), pre: stale.clone(), force: false, report: false,
+                      after: Some(medium.clone()), pre_tmp: None, sparse: true });
+    v.push(Scenario { name: "small-stale-tmp-planted".into(), text: small.clone(), pre: None, force: false, report: false,
+                      after: None, pre_tmp: med_full.clone(), sparse: true });
+    v.push(Scenario { name: "medium-then-small-tmp-planted-forced".into(), text: medium.clone(), pre: stale.clone(), force: true,
+                      report: false, after: Some(small.clone()), pre_tmp: med_full, sparse: true });
     if exhaustive {
         // one `pub` symbol only: with several, the report file is truncated and rewritten per symbol and the
         // forced-build oracle sees only the last report
         let medium1 = MEDIUM.replace("pub List", "List").into_bytes();
         let _ = medium;
-        v.push(Scenario { name: "medium-stale-report".into(), text: medium1, pre: stale, force: false, report: true });
+        v.push(Scenario { name: "medium-stale-report".into(), text: medium1, pre: stale, force: false, report: true, after: None, pre_tmp: None, sparse: false });
     }
     v
 }
 
 /// crash points of a scenario: all named points, every byte limit of the header region and around
 /// the end, and every `stride`-th byte in between (stride 1 = exhaustive)
-fn points(total: u64, hdr: u64, stride: u64, rng: &mut Rng) -> Vec<Point> {
+fn points(total: u64, hdr: u64, stride: u64, sparse: bool, rng: &mut Rng) -> Vec<Point> {
     let mut v: Vec<Point> = NAMED.iter().map(|n| Point::Named(n)).collect();
+    if sparse {
+        // boundaries of the writes, the file end, and a sample of offsets in every region
+        let mut ns = vec![0, 1, hdr.saturating_sub(1), hdr, hdr + 1, total.saturating_sub(1), total, total + 1];
+        for _ in 0..stride {
+            ns.push(rng.below((total + 2) as usize) as u64);
+            ns.push(rng.below((hdr + 2) as usize) as u64);
+        }
+        for n in ns {
+            v.push(Point::Limit(n, rng.chance(1, 6)));
+        }
+        return v;
+    }
     let mut n = 0u64;
     while n <= total + 1 {
         let dense = n <= hdr + 48 || n + 24 >= total;
@@ -248,7 +281,8 @@ fn main() {
         } else {
             61
         };
-        let pts = points(top, hdr, stride, &mut rng);
+        let stride = if sc.sparse { if exhaustive { 150 } else { 12 } } else { stride };
+        let pts = points(top, hdr, stride, sc.sparse, &mut rng);
         scen_info.push((sc.name.clone(), total, hdr, pts.len()));
         for p in pts {
             if let Some(o) = &only {
@@ -272,12 +306,19 @@ fn main() {
                 continue;
             }
             let sc = &scens[t.scen];
-            let o = oracle.get(&sc.text);
+            let final_text = sc.after.clone().unwrap_or_else(|| sc.text.clone());
+            let o = oracle.get(&final_text);
             setup(&dir, sc);
             mark(&dir, 1);
             let status = run_child(&dir, sc, &t.point);
-            let a1 = format!("crash | {}", show_state(&dir, 1, &fresh_flags(&dir, 1)));
+            let mut a1 = format!("crash | {}", show_state(&dir, 1, &fresh_flags(&dir, 1)));
             let crashed = fs::read(rspath(&dir, 0)).ok();
+            if let Some(t2) = &sc.after {
+                // the grammar is edited after the crash
+                mark(&dir, 1);
+                fs::write(gpath(&dir, 0), t2).unwrap();
+                a1 = format!("{a1}\t- | {}", show_state(&dir, 1, &fresh_flags(&dir, 1)));
+            }
             mark(&dir, 1);
             let res = real_build(&dir, 0, false, sc.report);
             let fresh = fresh_flags(&dir, 1);
@@ -289,6 +330,7 @@ fn main() {
             if cur != o.full {
                 kind = Some(match (&cur, &o.full) {
                     (Some(c), Some(f)) if f.starts_with(c) => "truncated-output-accepted",
+                    (Some(c), Some(f)) if c.starts_with(f) => "stale-temporary-file-tail-in-output",
                     (Some(_), None) => "output-left-for-failing-grammar",
                     (None, Some(_)) => "no-output-after-rebuild",
                     _ => "wrong-output-after-rebuild",
@@ -304,7 +346,7 @@ fn main() {
             if let Some(kind) = kind {
                 writeln!(
                     fnd,
-                    "{{\"kind\":{},\"scenario\":{},\"point\":{},\"child\":{},\"crash_state_bytes\":{},\"after_rebuild_bytes\":{},\"forced_bytes\":{},\"rebuild\":{},\"grammar\":{},\"pre_output\":{},\"force\":{},\"report\":{}}}",
+                    "{{\"kind\":{},\"scenario\":{},\"point\":{},\"child\":{},\"crash_state_bytes\":{},\"after_rebuild_bytes\":{},\"forced_bytes\":{},\"rebuild\":{},\"grammar\":{},\"pre_output\":{},\"force\":{},\"report\":{},\"stale_tmp_planted_bytes\":{},\"grammar_replaced_after_crash\":{}}}",
                     json_str(kind),
                     json_str(&sc.name),
                     json_str(&t.point.label()),
@@ -313,10 +355,17 @@ fn main() {
                     cur.as_ref().map(|c| c.len() as i64).unwrap_or(-1),
                     o.full.as_ref().map(|c| c.len() as i64).unwrap_or(-1),
                     json_str(if res.is_ok() { "ok" } else { "err" }),
-                    json_str(&String::from_utf8_lossy(&sc.text)),
+                    json_str(&format!(
+                        "{}{}{}",
+                        String::from_utf8_lossy(&sc.text),
+                        if sc.after.is_some() { "\n=== replaced after the crash by ===\n" } else { "" },
+                        sc.after.as_ref().map(|t| String::from_utf8_lossy(t).to_string()).unwrap_or_default()
+                    )),
                     json_str(match &sc.pre { None => "none", Some(p) if Some(p) == o.full.as_ref() => "current", Some(_) => "stale (output of another grammar)" }),
                     sc.force,
-                    sc.report
+                    sc.report,
+                    sc.pre_tmp.as_ref().map(|c| c.len() as i64).unwrap_or(-1),
+                    sc.after.is_some()
                 )
                 .unwrap();
             }
@@ -345,14 +394,14 @@ fn main() {
         }
     }
     // merge answers
-    let mut answers: Vec<Option<(String, String)>> = (0..tasks.len()).map(|_| None).collect();
+    let mut answers: Vec<Option<Vec<String>>> = (0..tasks.len()).map(|_| None).collect();
     let mut findings: Vec<String> = vec![];
     for k in 0..workers {
         if let Ok(t) = fs::read_to_string(root.join(format!("impl.{k}"))) {
             for line in t.lines() {
                 let mut it = line.split('\t');
                 let ti: usize = it.next().unwrap().parse().unwrap();
-                answers[ti] = Some((it.next().unwrap().to_string(), it.next().unwrap().to_string()));
+                answers[ti] = Some(it.map(|x| x.to_string()).collect());
             }
         }
         if let Ok(t) = fs::read_to_string(root.join(format!("findings.{k}"))) {
@@ -372,24 +421,35 @@ fn main() {
         if t.scen != cur_scen {
             cur_scen = t.scen;
             st.case(&oracle.def_line(&sc.text), "def hyp=true");
+            if let Some(t2) = &sc.after {
+                st.case(&oracle.def_line(t2), "def hyp=true");
+            }
             st.case("reset 1", "ok");
             setup(&mdir, sc);
             let _ = fs::remove_file(rspath(&mdir, 0));
+            let _ = fs::remove_file(tmppath(&mdir, 0));
             st.case(&format!("edit 0 {}", enc_bytes(&sc.text)), &format!("- | {}", show_state(&mdir, 1, &[false])));
             if let Some(p) = &sc.pre {
                 fs::write(rspath(&mdir, 0), p).unwrap();
                 st.case(&format!("setout 0 {}", enc_bytes(p)), &format!("- | {}", show_state(&mdir, 1, &[true])));
             }
+            if let Some(p) = &sc.pre_tmp {
+                fs::write(tmppath(&mdir, 0), p).unwrap();
+                st.case(&format!("settmp 0 {}", enc_bytes(p)), &format!("- | {}", show_state(&mdir, 1, &[false])));
+            }
             st.case("save", "ok");
         }
         let flags = format!("{}{}", if sc.force { " force" } else { "" }, if sc.report { " report" } else { "" });
-        let (a1, a2) = match &answers[ti] {
-            Some(a) => a.clone(),
-            None => {
+        let want = if sc.after.is_some() { 3 } else { 2 };
+        let ans: Vec<String> = match &answers[ti] {
+            Some(a) if a.len() == want => a.clone(),
+            _ => {
                 missing += 1;
-                ("<missing>".to_string(), "<missing>".to_string())
+                vec!["<missing>".to_string(); want]
             }
         };
+        let a1 = ans[0].clone();
+        let a2 = ans[want - 1].clone();
         st.case("restore", "ok");
         match &t.point {
             Point::Limit(n, kill) => {
@@ -400,6 +460,9 @@ fn main() {
                 hist.hit("named");
                 st.case(&format!("crashat 0 {name}{flags}"), &a1)
             }
+        }
+        if let Some(t2) = &sc.after {
+            st.case(&format!("edit 0 {}", enc_bytes(t2)), &ans[1]);
         }
         st.case(&format!("build 0{}", if sc.report { " report" } else { "" }), &a2);
     }
